@@ -77,6 +77,13 @@ Theorem reparse_equal_partial : forall env c t,
 Proof. exact reparse_equal_lemma. Qed.
 Print Assumptions reparse_equal_partial.
 
+(* for a type already in the reader's naming convention (what parse_string itself produces) *)
+Corollary reparse_equal_parsed_partial : forall env c t,
+  wf env t = true -> stable c t = true -> eq_stable c t = true -> unqual t = t ->
+  ty_eq (norm c t) t = true.
+Proof. exact reparse_equal_parsed_lemma. Qed.
+Print Assumptions reparse_equal_parsed_partial.
+
 (* VerifyVisitor (the clauses about types: GenericType / CallableType have parameters) accepts what is read back *)
 Theorem verify_ok : forall env c t, wf env t = true -> verify_ty (norm c t) = true.
 Proof. exact verify_ok_lemma. Qed.
